@@ -78,7 +78,7 @@ CLAIMED["C09"] = (T_WP + " (lemma level); sampled bounded stand-in for the cover
   "Coverage of the subject lines is not decided by proof: a sampled stand-in (labelled bounded) checks it on 36 000 (quick) / 1.2 million (thorough) small random operations: no failure except known finding F37 (an open path turning back along a horizontal line is not cut on the overlapping stretch), reported under its own sub-check.",
   "Lemma level only; the open/closed intersection branch and emission are listed as not under contract.",
   "DESIGN.md section 4, C09")
-CLAIMED["C07"] = (T_WP + " with wrapper contracts over abstract function symbols (EUF + arrays)",
+CLAIMED["C07"] = (T_WP + " with wrapper contracts over abstract function symbols (EUF + arrays); sampled differential stand-in: every floating-point entry point against its 64-bit counterpart on independently quantised input",
   "Proved for all inputs and all precisions: ScalePathDToPath64 quantises every coordinate to a nearest integer of x*scale, ScalePath64ToPathD multiplies by scale, the Paths variants work path by path; "
   "checkPrecision / NewClipperD / TrimCollinearD / MinkowskiSumD / MinkowskiDiffD / RectClipPathsD / RectClipLinesPathsD panic exactly when the precision is outside [-8,8]; "
   "TrimCollinearD, MinkowskiSumD/DiffD, RectClipPathsD, RectClipLinesPathsD equal unscale(1/10^p) o 64-bit operation o scale(10^p) (the 64-bit operations as abstract symbols); NewClipperD wires scale and 1/scale. "
@@ -97,7 +97,7 @@ CLAIMED["C13"] = (T_WP + "; the advertised range is checked by re-verifying the 
   "recorded as known finding F13 (the witness is replayed on every run). Region-level invariance of whole operations is not decided.",
   "Known finding F13 is the substance of this property; the check stays green only because it is recorded with its witnesses.",
   "DESIGN.md section 4, C13")
-CLAIMED["C03"] = (T_WP + ": safety obligations (index, slice, nil, division, make, panic) for every function in reach; zero-annotation sweep",
+CLAIMED["C03"] = (T_WP + ": safety obligations (index, slice, nil, division, make, panic) for every function in reach; zero-annotation sweep; sampled totality stand-in (panic capture, 5-second watchdog, Execute success) over adversarial arguments and out-of-range enum values",
   "No-panic proofs for all inputs (integer arithmetic wraps as in Go): 120 functions discharge every safety obligation with no precondition at all (sweep list in the contracts file), and the functions under functional contract "
   "(TrimCollinear64, SimplifyPath64/D, getNext/getPrior incl. termination, PointInPolygon, minkowskiInternal, scaling helpers, Area/Bounds, the rectangle-clip wrappers, engine entry points for the idle state) discharge theirs under their stated preconditions; "
   "checkPrecision-style panics happen exactly when documented. NOT decided: termination and nil-safety of the sweep's list walks, Execute's success flag, the rectangle clipper's state machine and the offset join constructors (listed as not under contract).",
